@@ -603,9 +603,11 @@ class World(BaseWorld):
             self.counters.update(be2.stats)
             if counts is not None:
                 n = ref.ndim if ref.shape != (1,) else 0
-                if not close(as_dist(counts, n), ref):
+                dist = as_dist(counts, n)
+                if not close(dist, ref):
                     raise self.vio("sum-backend", "Sum.get_counts(backend) of %d terms differs from the sum "
-                                   "of local mixed evaluations" % len(live))
+                                   "of local mixed evaluations" % len(live),
+                                   got=np.round(dist.flatten(), 6).tolist(), ref=np.round(ref.flatten(), 6).tolist())
                 self.note("sum_counts_checked")
         if not close(arr, ref):
             raise self.vio("sum-backend", "Sum.eval(backend) of %d terms differs from the sum of local "
